@@ -25,7 +25,10 @@ RULE = (
     "root, omitted prefixes, lower-is-better scores, fractional / wide scores, all-target and all-decoy tables, one-PSM "
     "tables, a numeric spectrum column written partly without decimals, a second call with append_to_output_file=True "
     "(whole directory vs the model of both calls), the score vector attached chunk-wise in the model (levelfilesraw), "
-    "score vectors of the wrong length, roll-up tool with small writer buffers / reader chunks and file-root names"
+    "score vectors of the wrong length, roll-up tool with small writer buffers / reader chunks and file-root names; "
+    "third pass: roll-up tool on level identifiers that read as whole numbers next to a few words (a reader chunk of "
+    "numbers is an integer column, a chunk with a word a text column): the precursor level against the model of the "
+    "seen-set on cells (toolcellrows, toolcellspec), in random cases and in one forced case per run"
 )
 
 LEVELS = ("ModifiedPeptide", "Precursor", "PeptideGroup")
@@ -736,6 +739,14 @@ def gen_rollup(rng, base=None):
     case["naming"] = r2.choice(["prefix", "prefix", "root+prefix", "root"])
     if case["naming"] == "root":
         case["ncoll"] = 1
+    # third pass: level identifiers that read as numbers.  A text file is parsed reader chunk by reader chunk, so the
+    # precursor `103` reaches the tool's seen-set as the number 103 from a chunk of whole numbers and as the text "103"
+    # from a chunk that also holds the precursor `x4` (drawn last, so that the earlier dimensions stay what they were)
+    case["numeric_ids"] = bool("Precursor" in levels and r2.random() < 0.35)
+    if case["numeric_ids"]:
+        case["tool_ties"] = False
+        # an entity is met under both types when some reader chunk holds a word and another one does not
+        case["reader_chunk"] = r2.choice([1, 2, 2, 5, None])
     return case
 
 
@@ -818,6 +829,28 @@ def run_rollup(chk, case):
         if any(len(read_result(src / nm)) == 0 for nm in in_names):
             chk.reject("rollup-input-file-without-rows")   # column types of an empty file cannot be inferred
             return
+        numeric = bool(case.get("numeric_ids")) and all("Precursor" in read_result(src / nm).columns for nm in in_names)
+        if numeric:
+            # the same precursors under identifiers that read as whole numbers (`pre3` -> `103`, `decoy_pre3` -> `203`),
+            # but for one or two of them, which keep a word (`x3` / `dx3`).  The merged reader takes the column types
+            # of a file from its first two rows and refuses files of different types: the words are chosen among the
+            # precursors that are not in the first two rows of any file.
+            fr = {nm: read_result(src / nm) for nm in in_names}
+            heads = {x for f in fr.values() for x in list(f["Precursor"])[:2]}
+            free = sorted({x for f in fr.values() for x in f["Precursor"]} - heads)
+            r3 = random.Random(case["data_seed"] ^ 0x1D5)
+            words = set(r3.sample(free, min(len(free), r3.choice([1, 1, 2]))))
+
+            def newid(e):
+                k_ = int(str(e).rsplit("pre", 1)[1])
+                isdec = str(e).startswith("decoy_")
+                return (("dx" if isdec else "x") + str(k_)) if e in words else str((200 if isdec else 100) + k_)
+
+            for nm, f in fr.items():
+                f = f.copy()
+                f["Precursor"] = [newid(e) for e in f["Precursor"]]
+                f.to_csv(src / nm, sep="\t", index=False)
+            chk.count("rollup-tool-numeric-level-ids", f"{len(words)} word id(s) among whole numbers")
         sfx = ""
         if case.get("parquet"):
             pqd = d / "pq"; pqd.mkdir(); sfx = ".parquet"
@@ -834,10 +867,13 @@ def run_rollup(chk, case):
         incol = {STD_COL.get(c, c): c for c in frames[0][1].columns}
         ids = [dict() for _ in cands]
         allrows, meta, tfiles, dfiles = [], {}, [], []
+        where = {}                          # row -> (file, position in the file, text of its precursor cell)
         for nm, f in frames:
             rows_f = []
-            for _, rec in f.iterrows():
+            for pos_, (_, rec) in enumerate(f.iterrows()):
                 i = len(allrows)
+                if numeric:
+                    where[i] = (nm, pos_, str(rec[incol["precursor"]]))
                 keys = [ids[l].setdefault(rec[incol[ln]], len(ids[l])) for l, ln in enumerate(cands)]
                 row = [i, i, keys, ".targets." in nm, int(rec["score"])]
                 allrows.append(row); rows_f.append(row)
@@ -893,7 +929,7 @@ def run_rollup(chk, case):
         spec_levels = reachable(base_col, PARENTS) & set(cols)
         got_files = {f.name for f in dest.iterdir()}      # the temporary level files of the tool included: none may remain
         want_files = {f"roll.{w}.{ln}s{sfx}" for ln in spec_levels for w in ("targets", "decoys")}
-        ok_spec, ok_model, clause = True, True, None
+        ok_spec, ok_model, clause, drift = True, True, None, False
         if base != "psm" and base_col in cols and not {f"roll.{w}.{base_col}s{sfx}" for w in ("targets", "decoys")} <= got_files:
             # every accepted --level whose input files exist and carry the level's column yields that level's files
             chk.case(None, ("rollup", case["data_seed"], base), sample=dict(rollup=case))
@@ -920,6 +956,32 @@ def run_rollup(chk, case):
             reqs.append(req("levelspec", l, merged, [allrows[i] for i, _ in got])); plan.append(ln)
             if not case.get("tool_ties") and [i for i, _ in got] != model[l]:
                 ok_model = False
+            if numeric and ln == "precursor":
+                # the level on the CELLS the tool is given: every reader delivers its file `reader_chunk_size` rows at a
+                # time, and a chunk of a text file whose precursor cells are all whole numbers is an integer column
+                import re as _re
+                csz = rchunk or 10000
+                chunk_cells = {}
+                for i_, (nm_, pos_, txt_) in where.items():
+                    chunk_cells.setdefault((nm_, pos_ // csz), []).append(txt_)
+                dt = {i_: ("n" if not sfx and all(_re.fullmatch(r"[0-9]+", t_) for t_ in chunk_cells[(nm_, pos_ // csz)])
+                           else "o") for i_, (nm_, pos_, _) in where.items()}
+                cells = [[r_[0], dt[r_[0]], where[r_[0]][2], r_[4]] for r_ in merged]
+                cell_of = {c_[0]: c_ for c_ in cells}
+                cresp = common.driver_batch([req("toolcellrows", False, cells), req("toolcellrows", True, cells),
+                                             req("toolcellspec", cells, [cell_of[i] for i, _ in got])])
+                m_ent = [int(x) for x in dec(cresp[0])]
+                m_raw = [int(x) for x in dec(cresp[1])]
+                chk.count("rollup-tool-type-drift", "reader chunks of both kinds: raw values would split an entity"
+                          if m_raw != m_ent else "no entity met as number and as text")
+                texts = [where[i][2] for i, _ in got]
+                if cresp[2].strip() != "T" or len(set(texts)) != len(texts):
+                    ok_spec, drift = False, True
+                    clause = (f"rollup level {ln}: not exactly one row per distinct value of the level column "
+                              f"(values written more than once: {sorted({t_ for t_ in texts if texts.count(t_) > 1})[:5]}; the "
+                              f"identifier is a number in one reader chunk and text in another)")
+                elif [i for i, _ in got] != m_ent:
+                    ok_model = False
             # a score tie between a target and a decoy of one entity is never decided for the target
             best_decoy = {}
             for r_ in allrows:
@@ -945,7 +1007,7 @@ def run_rollup(chk, case):
                 if any(a < b for a, b in zip(sc, sc[1:])):
                     ok_spec, clause = False, f"rollup level {ln}: {w} file not in non-increasing score order"
         for ln, r_ in zip(plan, common.driver_batch(reqs)):
-            if r_.strip() != "T":
+            if r_.strip() != "T" and not (drift and ln == "precursor"):
                 ok_spec, clause = False, f"rollup level {ln}: not exactly one best row per entity"
         if ok_spec and case.get("rerun"):
             # outputs of the tool (named after --file_root) must not be taken as inputs: run it twice with the source
@@ -963,7 +1025,9 @@ def run_rollup(chk, case):
         chk.case(None, ("rollup", case["data_seed"], base), sample=dict(rollup=case, levels=sorted(spec_levels)))
         chk.count("rollup-tool-levels", len(spec_levels)); chk.count("rollup-tool-ties", bool(case.get("tool_ties")))
         if not ok_spec:
-            chk.spec_violation("rollup-tool", dict(case=case, clause=clause, levels=sorted(spec_levels)))
+            # (stable signature of FINDING-C03.md: an entity written twice because its identifier changed type)
+            chk.spec_violation("rollup-tool:level-id-type-drift" if drift else "rollup-tool",
+                               dict(case=case, clause=clause, levels=sorted(spec_levels)))
         elif not ok_model:
             chk.corr_break("rolluptool", dict(case=case))
 
@@ -1026,6 +1090,13 @@ def main(chk, args):
                 levels=sorted(set(tied["levels"]) | {"PeptideGroup"},
                               key=("ModifiedPeptide", "Precursor", "PeptideGroup").index))
     run_rollup(chk, tied)
+    # ... and one whose precursor identifiers read as numbers but for a few: two collections (a file of whole numbers
+    # next to a file with a word) and reader chunks of two rows (both kinds of chunk inside one file)
+    typed = gen_rollup(chk.rng, "psm")
+    typed.update(n_spectra=25, ncoll=2, unsorted=False, tool_ties=False, parquet=False, numeric_ids=True, reader_chunk=2,
+                 naming="prefix", levels=sorted(set(typed["levels"]) | {"Precursor"},
+                                                key=("ModifiedPeptide", "Precursor", "PeptideGroup").index))
+    run_rollup(chk, typed)
     if chk.tier == "thorough":
         # the tool's own constants: a level with more than 1000 entities fills its writer buffer for real
         big = gen_rollup(chk.rng, "psm")
@@ -1055,6 +1126,9 @@ def main(chk, args):
         "roll-up tool: the writer buffer (1000 rows) and the reader chunk (10000 rows) are literals inside do_rollup; "
         "they are shrunk by wrapping the two names do_rollup looks up in its module (quick tier), and reached for real "
         "once in the thorough tier",
+        "roll-up tool on numeric-looking identifiers: the dtype of a reader chunk is restated by the harness (all cells "
+        "of the chunk match [0-9]+ -> integer column, else text column; Parquet input: text) and handed to the model as a "
+        "parameter of each row; identifiers are generated so that distinct texts are distinct entities",
         "a score vector of the wrong length is a caller's error: only raise / no raise and the retained PSMs are compared "
         "with the model of the zip of the chunk streams",
     ]
